@@ -25,55 +25,58 @@ type Obligation struct {
 	Reach  string // reachability term
 	Goal   string // must hold when reached
 	Extra  []string
-	Canary bool // must fail (vacuity guard)
-	Smoke  bool // must NOT be refutable: reach satisfiable
-	Models []string // terms to evaluate in a model
-	Top    bool   // clause marked as the property itself
+	Canary bool            // must fail (vacuity guard)
+	Smoke  bool            // must NOT be refutable: reach satisfiable
+	Models []string        // terms to evaluate in a model
+	Top    bool            // clause marked as the property itself
 	Blk    *ssa.BasicBlock // block of the top-level function where the obligation arises (nil: end of function)
+	RetPos token.Pos       // the return statement whose epilogue raised the obligation
 }
 
 type Enc struct {
-	W        *World
-	fn       *ssa.Function
-	fname    string
-	decls    []string
-	declared map[string]bool
-	axioms   []string
-	steps    []string
-	obls     []*Obligation
-	sorts    map[string]string // component -> SMT sort
-	nextID   int
-	epochs   int
-	abstract bool // abstract mode: unknown calls havoc, no safety obligations
-	safety   bool
-	oblCount map[string]int
-	strConst map[string]string // content -> ref term
-	strList  []string
-	memVers  []string // all fresh Mem versions (for constant-content axioms)
-	ghostLoc map[string]bool
-	subFuncs map[string]bool
+	W           *World
+	fn          *ssa.Function
+	fname       string
+	decls       []string
+	declared    map[string]bool
+	axioms      []string
+	steps       []string
+	obls        []*Obligation
+	sorts       map[string]string // component -> SMT sort
+	nextID      int
+	epochs      int
+	abstract    bool // abstract mode: unknown calls havoc, no safety obligations
+	safety      bool
+	oblCount    map[string]int
+	strConst    map[string]string // content -> ref term
+	strList     []string
+	memVers     []string // all fresh Mem versions (for constant-content axioms)
+	ghostLoc    map[string]bool
+	subFuncs    map[string]bool
 	assumptions map[string]bool // trusted things used (for evidence)
-	inlined  map[string]bool
-	errs     []string
-	closures map[ssa.Value]*closureInfo
-	deferSites []*deferSite
-	top      *Inst
-	exactArith bool
-	modelTerms []string
-	modelDesc  []modelVar
+	inlined     map[string]bool
+	errs        []string
+	closures    map[ssa.Value]*closureInfo
+	deferSites  []*deferSite
+	top         *Inst
+	exactArith  bool
+	modelTerms  []string
+	modelDesc   []modelVar
 	calleesUsed map[string]bool
-	ownerSubs  bool
-	stepBlk    []*ssa.BasicBlock // origin block (top-level function) of each step; nil = always relevant
-	curBlk     *ssa.BasicBlock
-	anc        map[*ssa.BasicBlock]map[*ssa.BasicBlock]bool
-	ancMu      sync.Mutex
+	ownerSubs   bool
+	stepBlk     []*ssa.BasicBlock // origin block (top-level function) of each step; nil = always relevant
+	curBlk      *ssa.BasicBlock
+	anc         map[*ssa.BasicBlock]map[*ssa.BasicBlock]bool
+	ancMu       sync.Mutex
+	curRet      int // source-order index of the return whose deferred calls are running (-1 otherwise)
+	curRetPos   token.Pos
 }
 
 type modelVar struct {
-	Name string // parameter name
-	Kind string // int, bool, bytes, string
+	Name  string // parameter name
+	Kind  string // int, bool, bytes, string
 	Terms []string
-	Ty   string
+	Ty    string
 }
 
 type closureInfo struct {
@@ -363,6 +366,9 @@ func (e *Enc) oblige(kind, key string, pos token.Pos, reach, goal string) *Oblig
 		name = fmt.Sprintf("%s#%d", base, n)
 	}
 	o := &Obligation{Name: name, Kind: kind, Pos: pos, Step: len(e.steps), Reach: reach, Goal: goal, Blk: e.curBlk}
+	if e.curRet >= 0 {
+		o.RetPos = e.curRetPos
+	}
 	if goal == "true" || reach == "false" {
 		// trivially discharged; still counted
 		o.Goal = "true"
@@ -568,6 +574,16 @@ func (e *Enc) typeInvOnLoad(v Val, t types.Type, st *State) {
 // load reads the value of type t at pointer p.
 func (e *Enc) load(st *State, p Val, t types.Type) Val {
 	switch p.K {
+	case KLocalObj:
+		stt, ok := t.Underlying().(*types.Struct)
+		if !ok {
+			e.fail("load of %s from local object", t)
+		}
+		v := Val{K: KStruct, Ty: t}
+		for i := 0; i < stt.NumFields(); i++ {
+			v.Fs = append(v.Fs, e.load(st, e.localFieldAddr(p, t, i), stt.Field(i).Type()))
+		}
+		return v
 	case KPtrField:
 		if kindOfType(t) == KStruct || sortOfType(t) == "" {
 			e.fail("load of %s through scalar pointer", t)
@@ -642,6 +658,14 @@ func (e *Enc) fieldAddr(r string, T types.Type, i int) Val {
 // store writes v (of type t) at pointer p.
 func (e *Enc) store(st *State, p Val, v Val, t types.Type) {
 	switch p.K {
+	case KLocalObj:
+		stt, ok := t.Underlying().(*types.Struct)
+		if !ok || v.K != KStruct || len(v.Fs) != stt.NumFields() {
+			e.fail("store of %s into local object", t)
+		}
+		for i := 0; i < stt.NumFields(); i++ {
+			e.store(st, e.localFieldAddr(p, t, i), v.Fs[i], stt.Field(i).Type())
+		}
 	case KPtrField:
 		if v.K == KStruct {
 			e.fail("store of struct through scalar pointer")
